@@ -28,6 +28,12 @@ def corpus():
             progs.append("fn g(x: %s, a: %s, b: %s) {\n  let arr = []\n  arr.push(a %s b)\n  let t = (x, a %s b)\n  println(arr)\n  println(t)\n  println(h(x, a %s b))\n}\n"
                          "fn h(x: %s, y) = (x, y)\ng(%s, %s, %s)\ng(%s, %s, %s)\n" % (ty, ty, ty, op, op, op, ty, x, a, b, x, b, a))
             progs.append("fn g(a: %s, b: %s) {\n  var s = a\n  let c = a %s b\n  let d = b %s a\n  println(c)\n  println(d)\n  let u = [a %s b, b %s a]\n  println(u)\n}\ng(%s, %s)\n" % (ty, ty, op, op, op, op, a, b))
+    # discarded results of operations that can stop the program: the runtime error must survive optimization
+    for ty, ops, z, big in (("int", ["/", "%", "*", "+", "-", "^"], "0", "9223372036854775807"), ("float", ["/"], "0.0", "1.0")):
+        for op in ops:
+            for rhs in ("b", z, big):
+                progs.append("fn g(a: %s, b: %s) {\n  println(\"start\")\n  a %s %s\n  println(\"after stmt\")\n  let _ = a %s %s\n  println(\"after let\")\n}\ng(%s, %s)\n"
+                             % (ty, ty, op, rhs, op, rhs, big, z))
     return progs
 
 
